@@ -97,6 +97,7 @@ struct Result {
   uint64_t abandoned = 0;      // executions stopped by a deadlock / crash / horizon (their threads are leaked)
   int bound_completed = -2;    // largest bound fully explored (-1: unbounded completed)
   bool exhaustive = false;     // requested bound(s) completed
+  bool cache_saturated = false;  // the state cache reached its ceiling: search still complete, less sharing
   std::vector<std::string> outcomes;
   std::vector<Violation> violations;
   std::vector<uint8_t> sample_trace;
